@@ -427,7 +427,8 @@ def real_pool_binding(chk, tier, d):
     sizes = [200, 4, 5, 6, 150, 7, 8, 9, 3, 120, 10, 11]
     cases = [("triclinic", make_stack(sizes, rng), "ragged-list"),
              ("orthorhombic", make_stack([90, 4, 5, 60, 6, 7, 3, 8], rng), "ragged-list"),
-             ("triclinic", make_stack([12] * 9, rng, ragged=False), "ndarray")]
+             ("triclinic", make_stack([12] * 9, rng, ragged=False), "ndarray"),
+             ("hexagonal", make_stack([25], rng, ragged=False), "ndarray")]
     ooo_seen = ooo_tried = 0
     for system, st, form in cases:
         exp = expected_indices(st, system)
@@ -612,6 +613,21 @@ def main(tier):
             c[0] += bool(failed)
             c[1] += 1
 
+        cands = {}  # (system, clause) -> (severity, what, replay): the worst example is the one reported
+
+        def candidate(sy, clause, sev, what, rep):
+            if (sy, clause) not in cands or sev > cands[(sy, clause)][0]:
+                cands[(sy, clause)] = (sev, what, rep)
+
+        def severity(clause, ln, sc):
+            if ln["ev"] == "pair":
+                return min(ln["diffs_e9"]) if clause == "twofold-relabelling" and sc["mode"] == "any" else max(ln["diffs_e9"])
+            if clause == "range":
+                return max(ln["below0_e6"], ln["above1_e6"])
+            if clause == "single-near-1":
+                return 1_000_000 - ln["m_e6"]
+            return 0
+
         rej_by_line = {}
         for t, line_no, clause in rejects:
             if clause.startswith(TRACE_DEFECT):
@@ -661,33 +677,42 @@ def main(tier):
                     if clause == "uniform-near-0":
                         uniform_excursions.append((tid, s, ln))
                         continue
-                    chk.violation(dict(system=sy, clause=clause), f"{clause}: {describe(s, ln, values)}",
-                                  dict(kind=s["kind"], scenario=s, salt=0, clause=clause, line=ln, values=values))
-        # a sampling-bound excursion is reported only when two fresh seeds of the same class show it too
+                    candidate(sy, clause, severity(clause, ln, s), f"{clause}: {describe(s, ln, values)}",
+                              dict(kind=s["kind"], scenario=s, salt=0, clause=clause, line=ln, values=values))
+        # a sampling-bound excursion is reported only when two fresh seeds of the same class show it too;
+        # per system the excursion with the most grains (the most decisive one) is the one re-run
         if uniform_excursions:
-            jobs = [(s, salt, True) for _, s, _ in uniform_excursions for salt in (1, 2)]
+            chosen = {}
+            for tid, s, ln in uniform_excursions:
+                if s["system"] not in chosen or (s["n"], -s["rep"]) > (chosen[s["system"]][1]["n"], -chosen[s["system"]][1]["rep"]):
+                    chosen[s["system"]] = (tid, s, ln)
+            chk.cov["uniform_bound_excursions"] = dict(total=len(uniform_excursions), re_run_on_fresh_seeds=len(chosen))
+            jobs = [(s, salt, True) for _, s, _ in chosen.values() for salt in (1, 2)]
             conf_traces, conf_meta = [], []
             for sid, salt, lines, values, _, _ in sorted(run_jobs(jobs, EVAL_WORKERS), key=lambda r: (r[0], r[1])):
                 conf_traces.append(lines)
                 conf_meta.append((sid, salt, values["base"]))
             crej, _, cres = judge(conf_traces, d, "confirm", timeout=900)
-            chk.add_tlc("MIndexTrace(confirmation)", cres, f"{len(conf_traces)} fresh-seed re-runs of {len(uniform_excursions)} uniform scenarios above the sampling bound")
+            chk.add_tlc("MIndexTrace(confirmation)", cres, f"{len(conf_traces)} fresh-seed re-runs of {len(chosen)} uniform scenarios above the sampling bound")
             confirmed = {}
             for t, _, clause in crej:
                 if clause.startswith(TRACE_DEFECT):
                     raise MachineryError(f"recorder defect in confirmation run: {clause}")
                 if clause == "uniform-near-0":
                     confirmed.setdefault(conf_meta[t][0], set()).add(conf_meta[t][1])
-            for tid, s, ln in uniform_excursions:
+            for tid, s, ln in chosen.values():
                 lines, values, _ = results[s["sid"]]
                 again = {salt: v for sid, salt, v in conf_meta if sid == s["sid"]}
                 if len(confirmed.get(s["sid"], ())) == 2:
                     judged(s["system"], "uniform-near-0", True)
-                    chk.violation(dict(system=s["system"], clause="uniform-near-0"),
-                                  f"uniform-near-0: {describe(s, ln, values)}; fresh seeds give {again} - all above the 6-sigma sampling bound for n={s['n']}",
-                                  dict(kind="index", scenario=s, salt=0, clause="uniform-near-0", line=ln, values=values, fresh_seeds=again))
+                    candidate(s["system"], "uniform-near-0", ln["m_e6"],
+                              f"uniform-near-0: {describe(s, ln, values)}; fresh seeds give {again} - all above the 6-sigma sampling bound for n={s['n']}",
+                              dict(kind="index", scenario=s, salt=0, clause="uniform-near-0", line=ln, values=values, fresh_seeds=again))
                 else:
                     chk.skip("uniform-bound-excursion-not-confirmed-on-fresh-seeds")
+        for key in sorted(cands):  # the worst example of every (system, clause)
+            _, what, rep = cands[key]
+            chk.violation(dict(system=key[0], clause=key[1]), what, rep)
         exc_sids = {s["sid"] for _, s, _ in uniform_excursions}
         for tid, s in enumerate(scen):
             if s["kind"] == "index" and s["texture"] == "uniform" and s["sid"] not in exc_sids:
